@@ -3,6 +3,7 @@ package verifh
 import (
 	"context"
 	"encoding/json"
+	"errors"
 	"fmt"
 	"strings"
 
@@ -230,7 +231,13 @@ func (w *srvWorld) checkC03Order() {
 				for _, q := range mj.Members {
 					start := q.Enter
 					if q.Kind == mRPCInfo {
-						start = q.Logged
+						// no handler to observe: a lone built-in request has run by
+						// the time its reply is passed to Send (inside a batch the
+						// reply waits for the siblings and says nothing)
+						start = -1
+						if len(mj.Members) == 1 {
+							start = w.replySeq(q.ID)
+						}
 					}
 					if start < 0 {
 						continue
@@ -466,9 +473,12 @@ func (w *srvWorld) checkC07() {
 	}
 	// (ii) duplicates inside one batch: both fail, neither runs
 	for _, msg := range w.msgs {
+		// "two such members of one batch both fail": two well-formed requests
+		// with one id (a member that is not a valid request at all is answered
+		// with its own error and need not count as a request bearing the id)
 		seen := map[string][]*member{}
 		for _, m := range msg.Members {
-			if m.ID != "" {
+			if m.ID != "" && m.Kind != mInvalid && m.Kind != mReply {
 				seen[m.ID] = append(seen[m.ID], m)
 			}
 		}
@@ -486,8 +496,8 @@ func (w *srvWorld) checkC07() {
 				if m.Kind == mInvalid || !ok || ref.mixed {
 					continue
 				}
-				if !isDupReply(ref.obj) {
-					r.Fail("batch-duplicates-not-both-failed", "message %d carries id %s %d times; member %s was answered %+v instead of a duplicate-id error", msg.Idx, id, len(ms), m.Tag, ref.obj)
+				if !ref.obj.HasErr {
+					r.Fail("batch-duplicates-not-both-failed", "message %d carries id %s %d times; member %s was answered %+v instead of an error", msg.Idx, id, len(ms), m.Tag, ref.obj)
 					return
 				}
 			}
@@ -663,6 +673,19 @@ func (w *srvWorld) stampReplyArrivals() {
 	}
 }
 
+// peerSentPayload: the scripted peer has put this text into one of its records.
+func (w *srvWorld) peerSentPayload(pay string) bool {
+	if pay == "" {
+		return false
+	}
+	for _, e := range w.r.Sim.Events {
+		if e.Kind == "ch.send" && e.Tag == "peer" && strings.Contains(e.S, pay) {
+			return true
+		}
+	}
+	return false
+}
+
 func (w *srvWorld) firstCause() int {
 	first := 1 << 30
 	for _, c := range w.causes {
@@ -750,7 +773,10 @@ func (w *srvWorld) checkC09(final bool) {
 			continue
 		}
 		if !w.push {
-			if a.Done && a.ErrV != jrpc2.ErrPushUnsupported {
+			// after the connection has ended both clauses apply (ErrPushUnsupported,
+			// ErrConnClosed) and the property gives neither precedence
+			ended := a.Done && w.firstCause() <= a.Return
+			if a.Done && !errors.Is(a.ErrV, jrpc2.ErrPushUnsupported) && !(ended && errors.Is(a.ErrV, jrpc2.ErrConnClosed)) {
 				r.Fail("push-sent-while-disabled", "%s with AllowPush=false returned %q, want ErrPushUnsupported", a.Tag, a.Err)
 				return
 			}
@@ -765,7 +791,7 @@ func (w *srvWorld) checkC09(final bool) {
 			continue
 		}
 		if a.Invoke > w.connEnded() && (w.restartSeq < 0 || a.Invoke < w.restartSeq) {
-			if a.Done && a.ErrV != jrpc2.ErrConnClosed {
+			if a.Done && !errors.Is(a.ErrV, jrpc2.ErrConnClosed) {
 				r.Fail("wrong-error-after-close", "%s invoked at #%d, after the connection had ended (#%d), returned %q, want ErrConnClosed", a.Tag, a.Invoke, w.connEnded(), a.Err)
 				return
 			}
@@ -796,7 +822,7 @@ func (w *srvWorld) checkC09(final bool) {
 					r.Fail("notify-record-count", "Notify %s returned nil but transmitted %d requests (want one, without id): %+v", a.Tag, len(sent[a.Tag]), sent[a.Tag])
 					return
 				}
-			} else if !(a.ErrV == jrpc2.ErrConnClosed && w.firstCause() <= a.Return) && w.sEnd.NSendFault == 0 {
+			} else if !(errors.Is(a.ErrV, jrpc2.ErrConnClosed) && w.firstCause() <= a.Return) && w.sEnd.NSendFault == 0 {
 				r.Fail("wrong-outcome", "Notify %s failed with %q although the connection was up", a.Tag, a.Err)
 				return
 			}
@@ -860,7 +886,7 @@ func (w *srvWorld) checkC09(final bool) {
 			continue
 		}
 		switch {
-		case a.ErrV == jrpc2.ErrConnClosed:
+		case errors.Is(a.ErrV, jrpc2.ErrConnClosed):
 			if !stopped {
 				r.Fail("wrong-outcome", "Callback %s returned ErrConnClosed although the connection was up", a.Tag)
 				return
@@ -890,6 +916,11 @@ func (w *srvWorld) checkC09(final bool) {
 					}
 				}
 			}
+			if pay == "" && stopped && strings.HasPrefix(a.Result, "E:") && !w.peerSentPayload(strings.TrimPrefix(a.Result, "E:")) {
+				// an *Error that carries nothing the peer ever sent, returned once the
+				// server had stopped: "an error when the server stops" (any error)
+				break
+			}
 			if pay == "" {
 				r.Fail("callback-foreign-reply", "Callback %s (id %s) returned %s, which the peer never sent for that id (replies for it: %+v)", a.Tag, id, a.Result, replies)
 				return
@@ -900,6 +931,9 @@ func (w *srvWorld) checkC09(final bool) {
 			}
 			used[pay] = a.Tag
 		case a.ErrV == context.Canceled || a.ErrV == context.DeadlineExceeded:
+			if a.ClockFired {
+				break // the deadline passed at a moment the workload did not choose: nothing more to judge
+			}
 			okCtx := ((a.CtxKind == 1 || a.CtxKind == 3) && a.ErrV == context.Canceled && ctxEnd <= a.Return) ||
 				(a.CtxKind == 2 && a.ErrV == context.DeadlineExceeded && ctxEnd <= a.Return) ||
 				(a.ErrV == context.Canceled && (stopped || hctxMayEnd))
